@@ -2,7 +2,7 @@
    Statements only; proofs are in Proofs/ContStoreProofs.v and Proofs/LogProofs.v. *)
 From RipV Require Import Base.Prelude Model.Frames Model.Log Model.ContStore Model.LogBytes
   Model.CapEffects Model.SidecarInv Proofs.LogProofs Proofs.ContStoreProofs Proofs.LogBytesProofs
-  Proofs.CapEffectsProofs Proofs.SidecarInvProofs Model.C02Cases Proofs.C02CasesProofs Model.NoopPlan Proofs.NoopPlanProofs Gen.LogOpen Gen.Effects.
+  Proofs.CapEffectsProofs Proofs.SidecarInvProofs Model.C02Cases Proofs.C02CasesProofs Model.NoopPlan Proofs.NoopPlanProofs Model.C02Decide Proofs.C02DecideProofs Gen.LogOpen Gen.Effects.
 
 (* one micro-step of any actor running ANY program (well-formed or not) in ANY state leaves the
    log as it was or adds exactly one frame at the end *)
@@ -319,3 +319,124 @@ Example c02_planner_demo :
   /\ length (cut_seqs {| t_msgs := map N.of_nat (List.seq 1 70); t_cps := [] |} 2) = 32%nat
   /\ cut_seqs w_thread6 18446744073709551615 = [] /\ cut_seqs w_thread6 0 = [].
 Proof. exact planner_demo. Qed.
+
+(* ---------- third round (builder log02c): the decisions before an append (Model/C02Decide.v) ----------
+   provider-cursor-rotate and ensure_default are no-ops exactly when a SEARCH finds something (ensure) or
+   nothing (rotate).  In the histories of this round (Model/C02Cases.v, call3) the model takes those decisions
+   itself - from what the code reads - instead of being told the outcome by the implementation's response;
+   the theorems say that the decision is the one the TRUTH LOG alone gives.
+
+   ROTATE.  No provider cursor frame of the thread in the truth log passes the request's filters (a filter
+   that is present is passed only by a recorded value that is present and equal; recorded endpoint / model are
+   optional) => the call appends nothing - for every state whose sidecars hold only frames of the log ... *)
+Theorem c02_rotate_nothing_to_find_adds_nothing : forall (st : state) (known : bool) (c : N) (rq : rot_req),
+  SideSub st -> rotate_has_target rq c (s_log st) = false ->
+  s_log (exec (rotate_prog false known c rq st) st) = s_log st.
+Proof. exact rotate_nothing_in_the_log_adds_nothing. Qed.
+Print Assumptions c02_rotate_nothing_to_find_adds_nothing.
+
+(* ... which is every state a history of capability calls (any filters, any recorded fields), cursor appends with
+   and without endpoint / model, frames written behind the store's back, cache faults, garbage, index faults,
+   restarts for any workspace and ageing can lead to *)
+Theorem c02_rotate_nothing_to_find_anywhere_in_a_history : forall (ks : list call3) (th : nat) (fp fe fm : N),
+  let d := snd (run_calls3 dstate0 ks) in
+  rotate_has_target (req_of fp fe fm) (nth_thread (s_log (d_st d)) th) (s_log (d_st d)) = false ->
+  s_log (d_st (fst (do_call3 d (DRotate th fp fe fm)))) = s_log (d_st d).
+Proof. exact rotate_noop_anywhere_in_a_history. Qed.
+Print Assumptions c02_rotate_nothing_to_find_anywhere_in_a_history.
+
+(* a thread id the in-memory index does not list (index behind the log): not_found, nothing appended *)
+Theorem c02_rotate_unlisted_thread_adds_nothing : forall (lenient : bool) (st : state) (c : N) (rq : rot_req),
+  s_log (exec (rotate_prog lenient false c rq st) st) = s_log st.
+Proof. exact rotate_unknown_adds_nothing. Qed.
+Print Assumptions c02_rotate_unlisted_thread_adds_nothing.
+
+(* FALSE of the reading `recorded.is_some_and(|r| r != filter)` (seeded change C02-7): a cursor frame without a
+   model, a request for model 5: nothing to find by the truth log, yet a frame is appended; the two readings
+   agree on every frame that records both fields - which is all the repository's tests have *)
+Theorem c02_rotate_lenient_filter_refuted :
+  rotate_has_target w_rot_req 0 (s_log w_rot_state) = false
+  /\ map seq (s_log (exec (rotate_prog true true 0 w_rot_req w_rot_state) w_rot_state)) = [0; 1; 2]
+  /\ map seq (s_log (exec (rotate_prog false true 0 w_rot_req w_rot_state) w_rot_state)) = [0; 1].
+Proof. exact rotate_lenient_filter_refuted. Qed.
+Print Assumptions c02_rotate_lenient_filter_refuted.
+
+Theorem c02_rotate_lenient_filter_hidden_on_full_frames : forall (rq : rot_req) (f : frame) (p e m : N),
+  cursor_fields f = Some (p, Some e, Some m) -> rot_match true rq f = rot_match false rq f.
+Proof. exact rot_match_lenient_same_on_full_frames. Qed.
+Print Assumptions c02_rotate_lenient_filter_hidden_on_full_frames.
+
+(* ENSURE_DEFAULT (the store's one get-or-create).  The log holds a thread of the store's workspace => the call
+   appends nothing - for EVERY in-memory index and EVERY state of continuities/index.json (the statement does
+   not mention them) ... *)
+Theorem c02_ensure_thread_in_the_log_adds_nothing : forall (d : dstate),
+  log_has_ws (d_ws d) (s_log (d_st d)) = true ->
+  s_log (d_st (fst (ensure false d))) = s_log (d_st d).
+Proof. exact ensure_thread_in_the_log_adds_nothing. Qed.
+Print Assumptions c02_ensure_thread_in_the_log_adds_nothing.
+
+(* ... spelled out for a restart: whatever is left in index.json (absent, unreadable, another version, any older or
+   foreign content) and whichever workspace the store is opened for ... *)
+Theorem c02_ensure_after_restart_any_index_file : forall (d : dstate) (file : idx_file) (ws : N),
+  log_has_ws ws (s_log (d_st d)) = true ->
+  s_log (d_st (fst (ensure false (reopen {| d_st := d_st d; d_ws := d_ws d; d_file := file; d_mem := d_mem d |} ws))))
+  = s_log (d_st d).
+Proof. exact ensure_after_restart_any_index_file. Qed.
+Print Assumptions c02_ensure_after_restart_any_index_file.
+
+(* ... and at any point of any history: index fault, restart, ensure *)
+Theorem c02_ensure_idempotent_anywhere_in_a_history : forall (ks : list call3) (x : idx_fault) (ws : N),
+  let d := snd (run_calls3 dstate0 ks) in
+  log_has_ws ws (s_log (d_st d)) = true ->
+  s_log (d_st (snd (run_calls3 d [DIdx x; DReopen ws; DEnsure]))) = s_log (d_st d).
+Proof. exact ensure_idempotent_anywhere_in_a_history. Qed.
+Print Assumptions c02_ensure_idempotent_anywhere_in_a_history.
+
+(* the answer comes from the log: when the in-memory index names only threads the log holds for that workspace
+   (MemSound), the thread answered is a thread of the workspace in the log *)
+Theorem c02_ensure_answers_from_the_log : forall (d : dstate),
+  MemSound d -> log_has_ws (d_ws d) (s_log (d_st d)) = true -> validate (s_log (d_st d)) = true ->
+  answer_code (d_ws d) (s_log (d_st (fst (ensure false d)))) (snd (ensure false d)) = 1.
+Proof. exact ensure_answers_from_the_log. Qed.
+Print Assumptions c02_ensure_answers_from_the_log.
+
+(* FALSE of `scan the log only when index.json is missing` (seeded change C02-9): the thread is in the log, the
+   file is there but lists nothing, the store is restarted: a second continuity_created (seq 0) is appended *)
+Theorem c02_ensure_skip_scan_when_index_file_exists_refuted :
+  log_has_ws 0 (s_log (d_st w_ens_state)) = true
+  /\ map seq (s_log (d_st (fst (ensure true w_ens_state)))) = [0; 0]
+  /\ map seq (s_log (d_st (fst (ensure false w_ens_state)))) = [0]
+  /\ snd (ensure false w_ens_state) = Some 0.
+Proof. exact ensure_skip_refuted. Qed.
+Print Assumptions c02_ensure_skip_scan_when_index_file_exists_refuted.
+
+(* ... invisible while the file is missing or the in-memory index knows the workspace *)
+Theorem c02_ensure_skip_scan_hidden_without_file_or_in_one_process : forall (d : dstate),
+  d_file d = IAbsent \/ ws_lookup (ix_ws (d_mem d)) (d_ws d) <> None ->
+  ensure true d = ensure false d.
+Proof. exact ensure_skip_hidden. Qed.
+Print Assumptions c02_ensure_skip_scan_hidden_without_file_or_in_one_process.
+
+(* prefix over the histories of this round; index faults and re-opening leave the log as it is *)
+Theorem c02_prefix_decided_histories : forall (ks1 ks2 : list call3),
+  exists fs, s_log (d_st (snd (run_calls3 dstate0 (ks1 ++ ks2))))
+             = s_log (d_st (snd (run_calls3 dstate0 ks1))) ++ fs.
+Proof. exact history3_prefix. Qed.
+Print Assumptions c02_prefix_decided_histories.
+
+Theorem c02_index_faults_and_reopening_keep_the_log : forall (d : dstate) (x : idx_fault) (ws : N),
+  s_log (d_st (fst (do_call3 d (DIdx x)))) = s_log (d_st d)
+  /\ s_log (d_st (fst (do_call3 d (DReopen ws)))) = s_log (d_st d).
+Proof. exact index_fault_and_reopen_keep_the_log. Qed.
+Print Assumptions c02_index_faults_and_reopening_keep_the_log.
+
+(* non-vacuity: frames in the log (and the answer code of each ensure) along a history with two workspaces, a
+   crash between the log append of the second thread and save_index, another version, a child, a lost index, a
+   third workspace; a rotate that finds nothing and one that rotates *)
+Example c02_decided_history_demo :
+  fst (run_calls3 dstate0 demo3_history) = [1; 1; 2; 2; 3; 3; 4; 1; 4; 4; 4; 1; 4; 4; 4; 1; 6; 6; 6; 6; 1; 6; 7; 1].
+Proof. exact demo3. Qed.
+
+Example c02_ensure_hypotheses_satisfiable :
+  MemSound w_ens_state /\ log_has_ws 0 (s_log (d_st w_ens_state)) = true /\ validate (s_log (d_st w_ens_state)) = true.
+Proof. exact mem_sound_demo. Qed.
